@@ -162,6 +162,8 @@ func Pool(profile string) []Decl {
 	add(raw("if b != _|_ {c: 1}", "b"), raw("if a.x != _|_ {c: a.x}", "a"), raw("for k, v in a {(k + \"2\"): v}", "a"),
 		raw("let L = b", "b"), f("c", "L", t("L")), raw(`("a"): 1`, ""), raw(`(b): 1`, "b"), in("b", `"a"`), raw("b", "b"),
 		raw("#D", "#D"), raw("{a: int}", ""), raw("...", ""), raw(`[=~"^a"]: int`, ""), raw(`[string]: {x?: int}`, ""))
+	// list literals of every open/closed x length combination (list-length bookkeeping)
+	add(in("a", "[1]"), in("a", "[_, ...]"), in("a", "[]"), in("a", "[...]"), in("a", "[1, 2, ...]"))
 	if profile == "hostile" {
 		add(f("a", "", t("a")), f("a", "", t("a"), st(in("b", "a"))), in("a", "[a]"), f("#D", "", st(in("n?", "#D"))), f("a", "b", t("b + 1")),
 			f("b", "a", t("a - 1")), in("a", "a | 1"), raw("let X = X", ""), in("a", "{x: a}"), f("a", "", st(in("x", "y"), in("y", "x"))),
@@ -188,6 +190,30 @@ func Pool(profile string) []Decl {
 		return q
 	}
 	return p
+}
+
+// Theme returns a sub-pool of the "order" pool for 3- and 4-way interactions
+// inside one feature: "lists", "disjunctions", "bounds", "closedness".
+func Theme(name string) []Decl {
+	var out []Decl
+	for _, d := range Pool("order") {
+		s := d.String()
+		ok := false
+		switch name {
+		case "lists":
+			ok = strings.HasPrefix(s, "a: [") && !strings.HasPrefix(s, "a: [=") || s == "b: a" || s == "c: [a, b]" || s == "c: [a, ...]"
+		case "disjunctions":
+			ok = strings.HasPrefix(s, "a: ") && strings.Contains(s, "|") || s == "a: int" || s == "a: >1" || s == "a: 2" || s == "b: a" || s == "c: a | 5" || s == "b: *2 | 3"
+		case "bounds":
+			ok = strings.HasPrefix(s, "a: ") && (strings.ContainsAny(s[3:4], "<>!=") || strings.HasPrefix(s, "a: (>")) || s == "a: int" || s == "a: number" || s == "a: 1" || s == "a: 2" || s == "b: a & (>0)" || s == "a: b" || s == "b: int"
+		case "closedness":
+			ok = strings.HasPrefix(s, "#D:") || strings.Contains(s, "#D") || strings.Contains(s, "close(") || s == "a: {y: 2}" || s == "a: {x: 1}" || s == "b: {a, y: 2}" || s == "b: a & {y: 2}" || s == "a: {}"
+		}
+		if ok {
+			out = append(out, d)
+		}
+	}
+	return out
 }
 
 // Multisets enumerates all multisets of size k over [0,n) as non-decreasing
